@@ -1,18 +1,19 @@
 (** C11 (closure): the per-operation closure theorems of Proofs_Closure .. Proofs_Closure4 in one statement.
     Operations covered: num, local_index, pad_none (rpad, rpad_and_clip), combinations, record-field projection
     (field_content), setfield, fill_none, flatten, sort / argsort, reducers, carry and range slicing.
-    Not covered: getitem_model (only through its pieces field_content / carry / crange).
+    and slicing (getitem_model, all item kinds).
     Fragment hypotheses (all boolean, none for num / local_index / setfield / sort):
       ax_frag Qpad c axis       the list at the axis is not a string, its content not option-type and of length >= 0
       ax_frag Qcomb c axis      the content of the list at the axis is not option-type
       fc_frag k false c         the projected field is not option-type when the record sits directly below an option node
       fn_frag c                 no option node directly inside a union, no union directly below an option node
       red_frag mask keepdims c axis   mask_identity without keepdims: no option/indexed node directly above the reduced list
+      nostr c, gi_frag c        (getitem) no string nodes; option-type / indexed nodes not nested in one another
       to_list c = Ok vs         (field_content, flatten, carry, crange) the input has a value; implied by chars_ok c = true *)
 From Coq Require Import ZArith List Bool Lia ZifyBool.
 From AwkV Require Import Base Layout LayoutInd Valid Types AtAxis Carry Ops_Struct Ops_Flatten Ops_Option Ops_Getitem
                          Ops_Fields Ops_Sort Ops_Reduce Proofs_ToList Proofs_CarryValid
-                         Proofs_Closure Proofs_Closure2 Proofs_Closure3 Proofs_Closure4.
+                         Proofs_Closure Proofs_Closure2 Proofs_Closure3 Proofs_Closure4 Proofs_Closure6.
 Import ListNotations.
 Open Scope Z_scope.
 
@@ -31,7 +32,8 @@ Theorem closure_all_partial : forall c, Valid None c ->
   (forall r axis mask keepdims c', red_frag mask keepdims c axis = true ->
                                    reduce_model r axis mask keepdims c = Ok c' -> Valid None c') /\
   (forall vs ix c', to_list c = Ok vs -> Forall (fun i => 0 <= i < clen c) ix -> carry c ix = Ok c' -> Valid None c') /\
-  (forall vs a b c', to_list c = Ok vs -> 0 <= a -> a <= b -> b <= clen c -> crange c a b = Ok c' -> Valid None c').
+  (forall vs a b c', to_list c = Ok vs -> 0 <= a -> a <= b -> b <= clen c -> crange c a b = Ok c' -> Valid None c') /\
+  (forall items c', nostr c = true -> gi_frag c = true -> getitem_model items c = Ok c' -> Valid None c').
 Proof.
   intros c HV. repeat split.
   - intros axis c'. apply num_preserves_valid, HV.
@@ -47,6 +49,7 @@ Proof.
   - intros r axis mask keepdims c'. apply reduce_preserves_valid_partial, HV.
   - intros vs ix c'. apply carry_valid, HV.
   - intros vs a b c'. apply crange_valid, HV.
+  - intros items c'. apply getitem_preserves_valid_partial, HV.
 Qed.
 
 (* one layout (nested lists + option + record) inside every fragment at once, with non-error valid results *)
@@ -58,8 +61,9 @@ Example closure_all_ex :
   let ok := fun r : res content => match r with Ok c' => valid_b c' | Err _ => false end in
   valid_b c = true /\ chars_ok c = true /\
   ax_frag Qpad c 2 = true /\ ax_frag Qcomb c 2 = true /\ fc_frag [121] false c = true /\ fn_frag c = true /\
-  red_frag true false c 2 = true /\
+  red_frag true false c 2 = true /\ nostr c = true /\ gi_frag c = true /\
   forallb ok [num_model 2 c; localindex_model 2 c; rpad_model 3 2 c; rpadclip_model 1 2 c; comb_model 2 false 2 c;
               field_content [121] c; fillna_model (Numpy DInt64 [1] [DZ 0]) c; flatten_model 1 c;
-              reduce_model RSum 2 true false c; carry c [1; 1; 0]; crange c 1 2] = true.
+              reduce_model RSum 2 true false c; carry c [1; 1; 0]; crange c 1 2;
+              getitem_model [IRange None None (Some (-1)); IAt 0; IField [121]] c] = true.
 Proof. vm_compute. repeat split. Qed.
